@@ -623,8 +623,13 @@ class World(BaseWorld):
             from discopy.quantum import circuit as C, gates as G
             rnd = SimRandom2(op["decisions"])
             C.random = rnd                   # the PRNG seam of random_tiling: a module attribute
-            gateset = [{"H": G.H, "CX": G.CX, "Rx": G.Rx, "Rz": G.Rz, "T": G.T, "CZ": G.CZ}[g]
-                       for g in op["gateset"]]
+            import numpy as _np
+            table = {"H": G.H, "CX": G.CX, "Rx": G.Rx, "Rz": G.Rz, "T": G.T, "CZ": G.CZ,
+                     # unusual but legal members of a gateset: a three-qubit gate, a box that
+                     # changes the number of wires - where they do not fit the call must raise
+                     "CCZ": G.QuantumGate("CCZ", 3, _np.diag([1, 1, 1, 1, 1, 1, 1, -1]), _dagger=None),
+                     "Discard": C.Discard()}
+            gateset = [table[g] for g in op["gateset"]]
             legal = None
             thunk = lambda: C.random_tiling(op["n"], op["depth"], gateset=gateset, seed=op.get("seed"))
             self.note("F6_random_tiling_decisions", len(op["decisions"]))
@@ -1073,7 +1078,7 @@ class Driver:
                 op["r"] = op["r"][1:]
         elif kind == "random_tiling":
             op.update({"n": sched.randint(1, 4), "depth": sched.randint(0, 3),
-                       "gateset": [sched.choice(["H", "CX", "Rx", "Rz", "T", "CZ"])
+                       "gateset": [sched.choice(["H", "CX", "Rx", "Rz", "T", "CZ", "CX", "CCZ", "Discard"])
                                    for _ in range(sched.randint(1, 4))] + ["H"],
                        "decisions": [self.s["peer"].getrandbits(16) for _ in range(12)],
                        "seed": sched.choice([None, 420])})
